@@ -119,7 +119,43 @@ def find_class(src, cls):
     raise ExtractError('class not found: ' + cls)
 
 
-_TAIL = re.compile(r'\s*(const)?\s*(noexcept(\s*\([^)]*\))?)?\s*(final|override)?\s*(->\s*[\w:<>\s\*&]+?)?\s*(:\s*[^;{]*?(\{[^{}]*\}|\([^()]*\))\s*(,\s*\w+\s*(\{[^{}]*\}|\([^()]*\))\s*)*)?\{')
+def parse_tail(src, j):
+    """after the closing paren of a parameter list at j-1: qualifiers, optional trailing return type,
+    optional constructor initialiser list, then the body brace. Returns (is_const, init_text, brace_index) or None"""
+    n = len(src)
+    i = j
+    is_const = False
+    while True:
+        m = re.compile(r'\s*(const|noexcept(\s*\([^)]*\))?|final|override|->\s*[\w:<>\s\*&]+?(?=\s*[{:]))').match(src, i)
+        if not m:
+            break
+        if m.group(1) == 'const':
+            is_const = True
+        i = m.end()
+    while i < n and src[i].isspace():
+        i += 1
+    init = ''
+    if i < n and src[i] == ':' and src[i:i + 2] != '::':
+        k = i + 1
+        while True:
+            m = re.compile(r'\s*[\w:<>]+\s*').match(src, k)
+            if not m:
+                return None
+            k = m.end()
+            if k >= n or src[k] not in '({':
+                return None
+            k = match_close(src, k) + 1
+            while k < n and src[k].isspace():
+                k += 1
+            if k < n and src[k] == ',':
+                k += 1
+                continue
+            break
+        init = src[i:k]
+        i = k
+    if i < n and src[i] == '{':
+        return is_const, init, i
+    return None
 
 
 def find_function(src, name, cls=None, sig=None, nth=0):
@@ -143,7 +179,7 @@ def find_function(src, name, cls=None, sig=None, nth=0):
             j = match_close(src, i)
         except (ExtractError, IndexError):
             continue
-        t = _TAIL.match(src, j + 1)
+        t = parse_tail(src, j + 1)
         if not t:
             continue
         params = src[i + 1:j]
@@ -158,15 +194,15 @@ def find_function(src, name, cls=None, sig=None, nth=0):
             continue
         if cls is None:
             pass
-        if sig and not re.search(sig, ' '.join((header + ' ' + name + '(' + params + ') ' + (t.group(1) or '')).split())):
+        if sig and not re.search(sig, ' '.join((header + ' ' + name + '(' + params + ') ' + ('const' if t[0] else '')).split())):
             continue
         if seen < nth:
             seen += 1
             continue
-        b = t.end() - 1
+        b = t[2]
         e = match_close(src, b)
         return dict(header=' '.join(header.split()), params=params, body=src[b:e + 1],
-                    const=bool(t.group(1)), init=(t.group(6) or ''),
+                    const=t[0], init=t[1],
                     line=src.count('\n', 0, m.start()) + 1, end_line=src.count('\n', 0, e) + 1)
     raise ExtractError('function not found: %s%s' % ((cls + '::') if cls else '', name))
 
@@ -340,6 +376,7 @@ def rw_generic(s, R, scalar_types=()):
     s = R.sub('nullptr', r'\bnullptr\b', 'NULL', s)
     s = R.sub('distance', r'(?<![\w.>])distance\s*\(', 'VERIF_DISTANCE(', s)
     s = R.sub('back_inserter', r'(?<![\w.>])back_inserter\s*\(([^()]*)\)', r'(&\1)', s)
+    s = R.sub('std_move', r'(?<![\w.>])move\s*\(', 'VERIF_MOVE(', s)
     s = R.sub('functor_call', r'\b(\w+)\{\}\(', r'\1_call(', s)
     s = R.sub('std_abs', r'(?<![\w.>])abs\s*\(', 'VERIF_ABS(', s)
     s = R.sub('static_assert', r'\bstatic_assert\s*\((?:[^;]|\n)*?\)\s*;', '', s)
@@ -608,7 +645,7 @@ class Unit:
 
     def __init__(self, file, name, cls=None, cname=None, sig=None, nth=0, bind=None, method=None,
                  selftype=None, pre=(), post=(), ret=None, params=None, extra_members=(), refs_keep=(),
-                 maythrow=False, scalar_types=(), static=False, drop_const_self=False, block=None, objs=None, retval=None, witness=(), strs=()):
+                 maythrow=False, scalar_types=(), static=False, drop_const_self=False, block=None, objs=None, retval=None, witness=(), strs=(), base_init_ok=()):
         self.file = file
         self.name = name
         self.cls = cls
@@ -630,6 +667,7 @@ class Unit:
         self.objs = objs or {}
         self.retval = retval
         self.strs = list(strs)
+        self.base_init_ok = list(base_init_ok)
         self.witness = list(witness)   # [(expr of type char*, length expr, K)]: first K bytes copied to a ghost array so traces show them
 
 
@@ -731,6 +769,24 @@ def extract(repo, u, R=None, src_cache=None, siblings=None):
         if not a or not b:
             raise ExtractError('block anchors not found in %s' % where)
         body = '{' + body[a.start():a.end() + b.start()] + '}'
+    if f.get('init') and not u.block:
+        init = f['init'].strip()
+        if init.startswith(':'):
+            init = init[1:]
+        stmts = []
+        for it in split_top(init):
+            it = it.strip()
+            if not it:
+                continue
+            m = re.match(r'^(\w+)\s*([({])(.*)[)}]$', it, re.S)
+            if not m or not m.group(1).startswith('m_'):
+                if m and m.group(1) in u.base_init_ok:
+                    R.hit('ctor_base_init_dropped')
+                    continue
+                raise ExtractError('constructor initialiser not understood: ' + it[:60])
+            stmts.append('%s = (%s);' % (m.group(1), ' '.join(m.group(3).split())))
+            R.hit('ctor_init_to_assignment')
+        body = '{ ' + ' '.join(stmts) + body[1:]
     body = apply_mustfire(body, u.pre, R, where)
     header = f['header']
     header = re.sub(r'template\s*<[^{;]*?>\s*(?=\w)', '', header, count=1)
@@ -758,6 +814,10 @@ def extract(repo, u, R=None, src_cache=None, siblings=None):
             body, n = re.subn(r'(?<![\w.>:])' + re.escape(nm) + r'\s*\((?!self\))', cn + '(self, ', body)
             R.hit('sibling_method_call', n)
         body = rw_members(body, R, u.extra_members)
+        body, n = re.subn(r'\*\s*this\b', '(*self)', body)
+        R.hit('this', n)
+        body, n = re.subn(r'(?<![\w.>])this\b', 'self', body)
+        R.hit('this', n)
         cparams = [('const ' if (f['const'] and False) else '') + u.selftype + '* self'] + cparams
     body = apply_mustfire(body, u.post, R, where)
     typedefs = ''.join('typedef %s %s;\n' % (v, k) for k, v in u.bind.items() if not k.startswith('#'))
@@ -816,3 +876,28 @@ def rw_ref_args(body, R, table):
             body = body[:m.start()] + rep + body[j + 1:]
             pos = m.start() + len(fn) + 1
     return body
+
+
+def extract_enum(repo, file, name, prefix=None):
+    """`enum class name : T { a = 1, ... }` -> C enum with prefixed enumerators + typedef of the underlying type"""
+    src = strip_comments(open(repo + '/' + file).read())
+    m = re.search(r'\benum\s+(?:class\s+)?' + re.escape(name) + r'\s*(?::\s*([\w: ]+?))?\s*\{', src)
+    if not m:
+        raise ExtractError('enum not found: ' + name)
+    b = m.end() - 1
+    e = match_close(src, b)
+    prefix = prefix if prefix is not None else name + '_'
+    items = []
+    for it in split_top(src[b + 1:e]):
+        it = ' '.join(it.split())
+        if not it:
+            continue
+        mm = re.match(r'^(\w+)(?:\s*=\s*(.*))?$', it)
+        if not mm:
+            raise ExtractError('enumerator not understood: ' + it)
+        val = mm.group(2)
+        if val is not None:
+            val = re.sub(r'\b(\w+)\b', lambda x: (prefix + x.group(1)) if re.match(r'^[A-Za-z_]', x.group(1)) and not x.group(1).startswith(('0x', 'U', 'u')) and x.group(1) not in ('U', 'u', 'L') else x.group(1), val)
+        items.append('  %s%s%s' % (prefix, mm.group(1), (' = ' + val) if val is not None else ''))
+    under = rw_generic(m.group(1), Rules()).strip() if m.group(1) else 'int'
+    return 'enum { \n%s\n};\ntypedef %s %s;\n' % (',\n'.join(items), under, name)
